@@ -1,0 +1,113 @@
+//go:build verif
+// +build verif
+
+// Verification hook (add-only, build tag `verif`), companion of verif_export_round.go:
+// the same signing party, but left standing in round0 so that verify messages delivered
+// through baseParty.Update are parked in futureMessages (round0.CanAccept == 1) and are
+// replayed by round1.Start at the transition round0 -> round1.  Thin wiring only.
+//
+//	VerifRoundNewInRound0   party built and started as in VerifRoundNew; round0 holds the
+//	                        proposal (bh, preBH, group — round0.Update/afterPreArrived set them
+//	                        while the block check is still pending) but canProcessed is false
+//	VerifRoundPartyUpdate   (existing) parks a verify message while in round0
+//	VerifRoundProposalChecked  what round0.checkBlock does on success (partyId, canProcessed);
+//	                        the party's own loop then performs the transition on the next
+//	                        baseParty.Update, exactly as in production
+//	VerifRoundEnterRound1   ProposalChecked + the transition itself (advance + round1.Start,
+//	                        one iteration of the loop in baseParty.Update), keeping the round1
+//	                        observable whatever happens afterwards; returns Start's error
+//	VerifRoundAttach        picks up round1 after a transition made by the party's loop
+//	VerifRoundParked        sorted ids of the party's parked messages
+package logical
+
+import (
+	"sort"
+	"strconv"
+	"sync"
+
+	"com.tuntun.rangers/node/src/common"
+	"com.tuntun.rangers/node/src/consensus/access"
+	"com.tuntun.rangers/node/src/consensus/groupsig"
+	"com.tuntun.rangers/node/src/consensus/model"
+	"com.tuntun.rangers/node/src/consensus/net"
+	"com.tuntun.rangers/node/src/core"
+	"com.tuntun.rangers/node/src/middleware/log"
+	"com.tuntun.rangers/node/src/middleware/types"
+)
+
+// VerifRoundNewInRound0 builds and starts the party as VerifRoundNew does and leaves it in
+// round0 with the proposal installed and its check still pending.
+func VerifRoundNewInRound0(belong *access.JoinedGroupStorage, chain core.BlockChain, ns net.NetworkServer,
+	mi groupsig.ID, group *model.GroupInfo, bh, preBH *types.BlockHeader) *VerifRound {
+	verifRoundLoggerOnce.Do(func() {
+		verifRoundLogger = log.GetLoggerByIndex(log.CLogConfig, strconv.Itoa(common.InstanceIndex))
+	})
+	party := &SignParty{belongGroups: belong, blockchain: chain,
+		minerReader: nil, globalGroups: nil,
+		mi: mi, netServer: ns,
+		baseParty: baseParty{
+			logger:         verifRoundLogger,
+			mtx:            sync.Mutex{},
+			futureMessages: make(map[string]model.ConsensusMessage),
+			Done:           make(chan byte, 1),
+			Err:            make(chan error, 1),
+			id:             common.ToHex(bh.Hash.Bytes()),
+		},
+	}
+	if err := party.Start(); err != nil {
+		return nil
+	}
+	r0 := party.round().(*round0)
+	r0.bh = bh
+	r0.preBH = preBH
+	r0.group = group
+	return &VerifRound{party: party}
+}
+
+// VerifRoundProposalChecked marks the proposal as checked (round0.checkBlock on success).
+func (v *VerifRound) VerifRoundProposalChecked() {
+	r0, ok := v.party.round().(*round0)
+	if !ok {
+		return
+	}
+	r0.partyId = r0.bh.Hash.String()
+	v.party.SetId(r0.partyId)
+	r0.canProcessed = true
+}
+
+// VerifRoundEnterRound1 = ProposalChecked, then advance + round1.Start.
+func (v *VerifRound) VerifRoundEnterRound1() error {
+	v.VerifRoundProposalChecked()
+	v.party.lock()
+	defer v.party.unlock()
+	v.party.advance()
+	v.r1 = v.party.round().(*round1)
+	if err := v.r1.Start(); err != nil {
+		return err
+	}
+	return nil
+}
+
+// VerifRoundAttach makes the accessors look at the party's round1 when the party stands in
+// round1 or round2; reports whether a round1 is attached.
+func (v *VerifRound) VerifRoundAttach() bool {
+	switch r := v.party.round().(type) {
+	case *round1:
+		v.r1 = r
+	case *round2:
+		if r != nil {
+			v.r1 = r.round1
+		}
+	}
+	return v.r1 != nil
+}
+
+// VerifRoundParked returns the sorted ids of the messages parked in the party.
+func (v *VerifRound) VerifRoundParked() []string {
+	out := make([]string, 0)
+	for id := range v.party.GetFutureMessage() {
+		out = append(out, id)
+	}
+	sort.Strings(out)
+	return out
+}
